@@ -27,14 +27,74 @@ func lockstep(c *core.Ctx, a, b *Dyn, steps int, what string) {
 		if a.Take != nil && realR.Intn(5) == 0 {
 			av, aok := a.Take()
 			bv, bok := b.Take()
-			if av != bv || aok != bok {
+			if !identical(av, bv) || aok != bok {
 				c.Fail("continuation", "removal-differs", "%s %s: removal returns (%v,%v), the container built through the API returns (%v,%v)", a.Kind, what, av, aok, bv, bok)
 			}
 		}
 	}
 }
 
+// runC12Floats: a load into a container whose prior content includes NaN (an
+// element that == never finds again, so "delete what is there, key by key"
+// leaves it behind), the infinities and both zeros must give what the same
+// load gives on a freshly constructed container of the same configuration;
+// a refused load must leave everything as it was.
+func runC12Floats(c *core.Ctx, sel int) {
+	r := c.R
+	kind := dynKinds[sel%len(dynKinds)]
+	cfg := drawCfg(r, true)
+	var d *Dyn
+	var docs []string
+	switch {
+	case !isKV(kind):
+		d = NewDyn(kind, FDom(), IntDom(4), cfg)
+		docs = []string{"[]", "null", "[1.5,2.5,1.5]", "[0,3,3,-2.25,1e300]", "[7]", "[1.5,", "{}", `["x"]`}
+	case sel/len(dynKinds)%2 == 0:
+		d = NewDyn(kind, StrDom(8), FDom(), cfg)
+		docs = []string{"{}", "null", `{"a":1.5,"b":3}`, `{"k1":0,"zz":-2.25,"":7}`, `{"a":1.5`, "[]", `{"a":"x"}`}
+	default:
+		d = NewDyn(kind, FDom(), IntDom(6), cfg)
+		docs = []string{"{}", "null", `{"1.5":6,"3":12}`, `{"0":0}`, `{"1.5":6`, "[]"}
+	}
+	c.Begin(kind, "New", d.Elem, d.Config)
+	d.build(c, r.Range(3, 30))
+	doc := []byte(docs[r.Intn(len(docs))])
+	fresh := d.Fresh()
+	before := d.Observe(false)
+	c.Begin(kind, "FromJSON", string(doc), "prior content", short(before.Values))
+	err := d.JSON.FromJSON(doc)
+	errF := fresh.JSON.FromJSON(doc)
+	c.Count("attempt:loads-over-float-content", 1)
+	if (err == nil) != (errF == nil) {
+		c.Fail("replace", "outcome-depends-on-prior-content", "%s(%s).FromJSON(%s) returned %v on a container holding %s, but %v on a fresh one", kind, d.Elem, doc, err, short(before.Values), errF)
+	}
+	after := d.Observe(false)
+	if err != nil {
+		if diff := before.Diff(after); diff != "" {
+			c.Fail("atomicity", "changed-on-error", "%s(%s).FromJSON(%s) returned %v and changed the container: %s", kind, d.Elem, doc, err, diff)
+		}
+		c.Nontrivial()
+		return
+	}
+	if diff := after.Diff(fresh.Observe(false)); diff != "" {
+		c.Fail("replace", "prior-content-survives", "%s(%s).FromJSON(%s) on a container holding %s differs from the same load on a fresh container: %s", kind, d.Elem, doc, short(before.Values), diff)
+	}
+	// (no lockstep continuation here: further calls would insert NaN again, and
+	// what hash-keyed containers do with several NaN keys is outside every statement)
+	c.Nontrivial()
+}
+
 func runC12(c *core.Ctx) {
+	if c.Index < heapPermCases {
+		// every arrangement of small arrays loaded into BinaryHeap / PriorityQueue
+		// and drained ("ordered containers sort"): see runHeapPerms in c06.go
+		runHeapPerms(c, c.Index)
+		return
+	}
+	if c.Index%47 == 21 {
+		runC12Floats(c, c.Index/47)
+		return
+	}
 	r := c.R
 	kind := dynKinds[c.Index%len(dynKinds)]
 	// with ties the statement leaves the surviving representative open, so the
@@ -307,6 +367,8 @@ func init() {
 				f.atLeast("attempt:well-formed-over-content:"+k, 100)
 			}
 			f.atLeast("attempt:element-replaced", 1500)
+			f.atLeast("attempt:loads-over-float-content", 1000)
+			f.atLeast("heap:arrangement-cases", heapPermCases)
 			f.atLeast("attempt:hostile-over-content", 3000)
 			for _, l := range []string{"null", "[]", "{}"} {
 				f.atLeast("attempt:literal:"+l, 10)
